@@ -32,5 +32,9 @@ let () =
       List.iter (fun x -> Printf.printf "%d\n" (int_of_n x))
         (list_backups_n (nat_of_int (int_of_string t.(1))) ((n_of_int 1, n_of_int 5), n_of_int 7));
       print_endline "END"
+    | "L2" ->
+      List.iter (fun x -> Printf.printf "%d\n" (int_of_n x))
+        (list_backups_ss2_n (nat_of_int (int_of_string t.(4))) (n_of_int (int_of_string t.(1))) (n_of_int (int_of_string t.(2))) (n_of_int (int_of_string t.(3))) (n_of_int 1));
+      print_endline "END"
     | _ -> ()
   done with End_of_file -> ()
